@@ -38,8 +38,11 @@ def oneline(value: object) -> str:
     visible to whoever is reading, and still only one line.
     """
     text = str(value)
+    # the event is written to the pipe as ASCII, so a character outside it is escaped as well
+    # (ascii() rather than repr(): repr() keeps a printable non-ASCII character as it is)
     return ''.join(
-        character if character.isprintable() or character == ' ' else repr(character)[1:-1] for character in text
+        character if character.isascii() and (character.isprintable() or character == ' ') else ascii(character)[1:-1]
+        for character in text
     )
 
 
